@@ -1,0 +1,74 @@
+//go:build verif
+// +build verif
+
+// Observation hooks for external runtime monitors. Compiled only with the
+// "verif" build tag; nothing here is referenced by the rest of the package.
+
+package jet
+
+import (
+	"fmt"
+	"reflect"
+	"sync"
+	"unsafe"
+)
+
+// VerifState is a comparable snapshot of the interpreter state of a Runtime.
+type VerifState struct {
+	ScopeDepth int     // number of scopes on the scope chain
+	Scope      uintptr // identity of the innermost scope
+	Context    string  // identity of the current context ('.')
+	Content    uintptr // identity of the current yield content closure (0 if none)
+	Writer     string  // identity of the current output destination
+}
+
+func verifIdent(v reflect.Value) string {
+	if !v.IsValid() {
+		return "<invalid>"
+	}
+	switch v.Kind() {
+	case reflect.Ptr, reflect.Map, reflect.Slice, reflect.Chan, reflect.Func, reflect.UnsafePointer:
+		return fmt.Sprintf("%s@%x/%d", v.Type(), v.Pointer(), lenOrZero(v))
+	}
+	if v.CanAddr() {
+		return fmt.Sprintf("%s&%x", v.Type(), v.UnsafeAddr())
+	}
+	s := fmt.Sprintf("%s=%v", v.Type(), v)
+	if len(s) > 200 {
+		s = s[:200]
+	}
+	return s
+}
+
+func lenOrZero(v reflect.Value) int {
+	switch v.Kind() {
+	case reflect.Map, reflect.Slice, reflect.Chan:
+		return v.Len()
+	}
+	return 0
+}
+
+// VerifProbe reports the interpreter state of r at the time of the call.
+func VerifProbe(r *Runtime) VerifState {
+	var s VerifState
+	for sc := r.scope; sc != nil; sc = sc.parent {
+		s.ScopeDepth++
+	}
+	s.Scope = uintptr(unsafe.Pointer(r.scope))
+	s.Context = verifIdent(r.context)
+	if r.content != nil {
+		s.Content = uintptr(*(*unsafe.Pointer)(unsafe.Pointer(&r.content)))
+	}
+	s.Writer = verifIdent(reflect.ValueOf(r.Writer))
+	return s
+}
+
+// VerifDrainPools replaces the Runtime and ranger pools by empty ones, so that
+// the next execution starts from freshly constructed state.
+func VerifDrainPools() {
+	pool_State = sync.Pool{New: pool_State.New}
+	*poolSliceRanger = sync.Pool{New: poolSliceRanger.New}
+	for _, k := range []reflect.Kind{reflect.Map, reflect.Chan} {
+		poolsByKind[k] = &sync.Pool{New: poolsByKind[k].New}
+	}
+}
